@@ -9,7 +9,7 @@
 //!
 //!   case <id>
 //!   parse <number of parser diagnostics>
-//!   diag <phase> <severity> <code> <message-hex> <start> <end>
+//!   diag <phase> <severity> <code> <message-hex> <start> <end> <first-label-hex>
 //!   accepted 0|1
 //!   ast <prefix token stream of the resolved AST>          (accepted only)
 //!   plan none | plan S <stmt ids> F <function ids>
@@ -336,12 +336,13 @@ fn dump_diags(w: &mut impl Write, phase: &str, d: &Diagnostics<'_>) {
     for dg in &d.diagnostics {
         writeln!(
             w,
-            "diag {phase} {} {} {} {} {}",
+            "diag {phase} {} {} {} {} {} {}",
             sev(&dg.severity),
             dg.code,
             hex(dg.message.as_bytes()),
             dg.span.start,
-            dg.span.end
+            dg.span.end,
+            hex(dg.labels.first().map_or(&b""[..], |l| l.message.as_bytes()))
         )
         .unwrap();
     }
